@@ -70,3 +70,21 @@ PROPS["C06"] = {
          "thorough": {"shards": 16, "checks": 100000, "cap": 7200}},
     ],
 }
+
+PROPS["C12"] = {
+    "level": "exploration",
+    "rule": ("api: generated graph (1-9 targets over 5 packages incl. prefix siblings, test targets, tags, platforms, 35% of edges through 1-2 aliases, free aliases) + invocation "
+             "(0-3 patterns from the documented grammar relative to a generated current package, tag/exclude-tag sets, build vs test, host platform, --all-platforms) run through "
+             "selection.SelectTargetsForBuild; selected set, selected-target count, platform-skipped count and error/no-error must equal an independent reference selector. "
+             "Non-trivial = platform error, or an alias inside a closure of size>1, or a tag filter active on a non-empty selection, or platform-skipped seeds; distinct by full case."),
+    "assumptions": [
+        "an alias matched by a pattern whose aliased target fails the tag/exclude-tag/type filters may or may not seed the selection (docs only say 'building an alias builds its actual'): both outcomes accepted, cases counted in class alias-seed-fails-target-filters",
+        "pattern strings are drawn from the documented grammar (C17 covers the rest)",
+    ],
+    "nt_floor": 0.2,
+    "parts": [
+        {"name": "api", "pkg": "c12", "test": "TestSelection",
+         "quick": {"shards": 8, "checks": 24000, "cap": 600},
+         "thorough": {"shards": 16, "checks": 1200000, "cap": 7200}},
+    ],
+}
